@@ -310,6 +310,19 @@ def run_key(c) -> tuple:
         add("public-key-default-export", lambda: kpub.as_pem())
         add("public-key-default-export", lambda: kpub.as_dict())
         add("public-key-default-export", lambda: KeySet([kpub]).as_dict())
+        # the application goes on using the JWK document it imported the public key from: it completes that dict of its own with the
+        # private members (to load the private key from it next); the public key object imported before is not affected
+        try:
+            from joserfc.jwk import RSAKey as _R, ECKey as _E, OKPKey as _O
+            doc = rk.export_jwk(rk.public_of(ref), False)
+            kdoc = {"RSA": _R, "EC": _E, "OKP": _O}[ref["kty"]].import_key(doc)
+            doc.update({m: v for m, v in rk.export_jwk(ref, True).items() if m not in doc})
+        except Exception:
+            kdoc = None
+        if kdoc is not None:
+            add("public-key-default-export", lambda: kdoc.as_dict())
+            add("public-key-default-export", lambda: KeySet([kdoc]).as_dict())
+            add("public-dict", lambda: kdoc.as_dict(private=False))
         if ref["kty"] == "RSA":
             # an RSA JWK that names its prime factors but not d: refused, or else a public key without them in any export
             try:
